@@ -73,6 +73,11 @@ pub struct HCtx {
     pub pmt_pkt_seq: usize,
     last_section: (usize, usize),
     last_k: usize,
+    /// quiet mode (C19 measurements): callbacks only count, they never allocate
+    pub quiet: bool,
+    pub n_events: usize,
+    pub n_copied: usize,
+    pub n_construct: usize,
 }
 
 /// `PmtPacketFilter` with a packet counter so that `construct` can tell which stream-loop entry a
@@ -100,6 +105,10 @@ impl HCtx {
             pmt_pkt_seq: 0,
             last_section: (usize::MAX, 0),
             last_k: 0,
+            quiet: false,
+            n_events: 0,
+            n_copied: 0,
+            n_construct: 0,
         }
     }
     /// global range of a slice handed to a callback, or `COPIED` if it is not inside the pushed data
@@ -119,6 +128,10 @@ impl HCtx {
             "COPIED".to_string()
         }
     }
+    pub fn inside(&self, s: &[u8]) -> bool {
+        let a = s.as_ptr() as usize;
+        a >= self.base && a + s.len() <= self.base + self.total
+    }
     fn tag(&mut self) -> usize {
         let t = self.next_tag;
         self.next_tag += 1;
@@ -133,6 +146,29 @@ impl DemuxContext for HCtx {
     }
     fn construct(&mut self, req: FilterRequest<'_, '_>) -> HFilter {
         let tag = self.tag();
+        if self.quiet {
+            self.n_construct += 1;
+            return match req {
+                FilterRequest::ByPid(pid) => {
+                    if pid == psi::pat::PAT_PID {
+                        HFilter::Pat(PatPacketFilter::default())
+                    } else {
+                        HFilter::Rec(Recorder { tag })
+                    }
+                }
+                FilterRequest::Pmt { pid, program_number } => {
+                    HFilter::Pmt(PmtWrap { inner: PmtPacketFilter::new(pid, program_number) })
+                }
+                FilterRequest::Nit { .. } => HFilter::Rec(Recorder { tag }),
+                FilterRequest::ByStream { stream_type, .. } => {
+                    if stream_type.is_pes() {
+                        HFilter::Pes(PesPacketFilter::new(EsRec { tag }))
+                    } else {
+                        HFilter::Rec(Recorder { tag })
+                    }
+                }
+            };
+        }
         match req {
             FilterRequest::ByPid(pid) => {
                 self.trace.push(format!("C:bypid:{}>{}", u16::from(pid), tag));
@@ -272,6 +308,13 @@ pub fn touch_pes_header(h: &PesHeader<'_>, s: &mut String) {
 impl PacketFilter for Recorder {
     type Ctx = HCtx;
     fn consume(&mut self, ctx: &mut HCtx, pk: &Packet<'_>) {
+        if ctx.quiet {
+            ctx.n_events += 1;
+            if !ctx.inside(pk.buffer()) {
+                ctx.n_copied += 1;
+            }
+            return;
+        }
         if ctx.cfg.touch {
             touch_packet(pk);
         }
@@ -305,9 +348,25 @@ pub struct EsRec {
 
 impl ElementaryStreamConsumer<HCtx> for EsRec {
     fn start_stream(&mut self, ctx: &mut HCtx) {
+        if ctx.quiet {
+            ctx.n_events += 1;
+            return;
+        }
         ctx.trace.push(format!("E:{}:start", self.tag));
     }
     fn begin_packet(&mut self, ctx: &mut HCtx, header: PesHeader<'_>) {
+        if ctx.quiet {
+            ctx.n_events += 1;
+            let ok = match header.contents() {
+                PesContents::Payload(rest) => ctx.inside(rest),
+                PesContents::Parsed(None) => true,
+                PesContents::Parsed(Some(c)) => ctx.inside(c.payload()),
+            };
+            if !ok {
+                ctx.n_copied += 1;
+            }
+            return;
+        }
         if ctx.cfg.touch {
             let mut s = String::new();
             touch_pes_header(&header, &mut s);
@@ -323,13 +382,28 @@ impl ElementaryStreamConsumer<HCtx> for EsRec {
         ctx.trace.push(format!("E:{}:begin:{}:{}:{}:{}:{}", self.tag, sid, len, kind, pd, pl));
     }
     fn continue_packet(&mut self, ctx: &mut HCtx, data: &[u8]) {
+        if ctx.quiet {
+            ctx.n_events += 1;
+            if !ctx.inside(data) {
+                ctx.n_copied += 1;
+            }
+            return;
+        }
         let r = ctx.grange(data);
         ctx.trace.push(format!("E:{}:cont:{}", self.tag, r));
     }
     fn end_packet(&mut self, ctx: &mut HCtx) {
+        if ctx.quiet {
+            ctx.n_events += 1;
+            return;
+        }
         ctx.trace.push(format!("E:{}:end", self.tag));
     }
     fn continuity_error(&mut self, ctx: &mut HCtx) {
+        if ctx.quiet {
+            ctx.n_events += 1;
+            return;
+        }
         ctx.trace.push(format!("E:{}:ccerr", self.tag));
     }
 }
